@@ -217,6 +217,41 @@ def match_known(res: Result, findings: list[dict]) -> dict | None:
 
 
 # --------------------------------------------------------------------------- shard side
+RSS_LIMIT_MB = float(os.environ.get("VP_RSS_MB", "2500"))
+_MEMORY_GUARD = {"cleared": 0, "peak_mb": 0.0}
+
+
+def _rss_mb() -> float:
+    try:
+        with open("/proc/self/statm") as f:
+            return int(f.read().split()[1]) * os.sysconf("SC_PAGE_SIZE") / 1e6
+    except (OSError, ValueError, IndexError):
+        return 0.0
+
+
+def memory_guard() -> None:
+    """Long campaigns on large expressions grow without bound through two caches that are not part of anything a
+    property speaks about: sympy's global expression cache and the source text of every lambdified function
+    that `linecache` keeps.  Above RSS_LIMIT_MB both are emptied (never inside a case)."""
+    rss = _rss_mb()
+    _MEMORY_GUARD["peak_mb"] = max(_MEMORY_GUARD["peak_mb"], rss)
+    if rss <= RSS_LIMIT_MB:
+        return
+    import gc  # noqa: PLC0415
+    import linecache  # noqa: PLC0415
+
+    try:
+        from sympy.core.cache import clear_cache  # noqa: PLC0415
+
+        clear_cache()
+    except Exception:  # noqa: BLE001, S110
+        pass
+    for key in [k for k in linecache.cache if k.startswith("<lambdifygenerated")]:
+        del linecache.cache[key]
+    gc.collect()
+    _MEMORY_GUARD["cleared"] += 1
+
+
 class Collector:
     def __init__(self, mod, tier: str, budget: dict) -> None:
         self.mod = mod
@@ -275,6 +310,7 @@ class Collector:
         return res
 
     def record(self, desc, res: Result) -> None:
+        memory_guard()
         self.evaluations += 1
         h = dhash(desc)
         for lab in res.labels:
@@ -451,6 +487,7 @@ def shard_main(argv: list[str]) -> int:
         "inconclusive": col.inconclusive,
         "excluded_known": col.excluded_known,
         "wall_s": time.time() - col.t0,
+        "memory": {"peak_rss_mb": round(max(_MEMORY_GUARD["peak_mb"], _rss_mb())), "caches_cleared": _MEMORY_GUARD["cleared"]},
         "failure": None,
         "fixed_failures": [
             {"case": _jsonable(d), "result": r.to_json()} for d, r in col.fixed_failures
@@ -609,6 +646,8 @@ def run_property(pid: str, tier: str, seed: int) -> int:
             "inconclusive_cases_not_run_wall_cap": sum(s["inconclusive"] for s in shards),
             "shards": len(shards),
             "shard_wall_s": [round(s["wall_s"], 1) for s in shards],
+            "shard_peak_rss_mb": [s.get("memory", {}).get("peak_rss_mb", 0) for s in shards],
+            "shard_cache_clearings": sum(s.get("memory", {}).get("caches_cleared", 0) for s in shards),
             "code_under_test": srcs,
             "exhaustive": bool(getattr(mod, "EXHAUSTIVE", {}).get(tier, False)),
         },
